@@ -1146,6 +1146,11 @@ struct ASTNode {
     bool is_unsigned = false;         // unsigned修飾子
     bool is_function_address = false;  // 関数アドレス(&関数)フラグ
     std::string function_address_name; // 関数アドレスの関数名
+    // Set by the parser on the copy T' of the target in the desugaring
+    // `T op= v` -> `T = T' op v` when the index expressions of T have side
+    // effects: T' must not evaluate its (copied) index expressions but reuse
+    // the index values of the assignment target T (evaluated once).
+    bool reuse_assign_target_indices = false;
 
     // 値・名前
     int64_t int_value = 0;     // 整数リテラル値
